@@ -10,6 +10,7 @@
 pub mod mutate;
 pub mod oracle;
 pub mod registry;
+pub mod rules;
 pub mod special;
 
 use mutate::{digest_value, node_count, shape_digest, transparent_key, Mutator, Pools, Site, SiteKind, Step};
@@ -84,9 +85,19 @@ const HARVEST_MAX_NODES: usize = 60_000;
 impl Harvest<'_> {
     fn keysig(m: &serde_json::Map<String, Value>) -> String {
         let mut s = String::new();
-        for k in m.keys() {
+        for (k, v) in m {
             s.push_str(k);
             s.push(',');
+            // enum variant: include the payload's key set
+            if m.len() == 1 && transparent_key(k) {
+                if let Value::Object(inner) = v {
+                    s.push('{');
+                    for k2 in inner.keys() {
+                        s.push_str(k2);
+                        s.push(',');
+                    }
+                }
+            }
         }
         s
     }
@@ -188,18 +199,36 @@ struct Run<'a> {
 
 // ---------------------------------------------------------------- explained normalisations
 
+/// End-of-data arrays (`#[count(..)]` in the schema) that can be followed by
+/// other data when their table is embedded in a parent.
+const END_OF_DATA_ARRAYS: &[&str] = &["glyph_id_array", "string_data", "data", "entry_map_data", "entry_data", "codepoint_data", "id_data", "brotli_stream"];
+
 /// Returns the explanation if this difference between the written and the
 /// re-read value is a legitimate normalisation (established by reading the
 /// writer / reader code), None if it is unexplained.
-pub fn explain(type_name: &str, d: &Diff) -> Option<&'static str> {
-    let _ = type_name;
-    // A conditional (version- or flag-gated) field that the value carries but
-    // whose condition does not hold is not written (`version.compatible(..)
-    // .then(|| ..)` in every generated writer), so it reads back as None.
-    // NullableOffsetMarker (`.obj`) is not a conditional field: a written
-    // Some must stay Some.
-    if d.kind == DiffKind::SomeToNull && !d.path.ends_with(".obj") {
+pub fn explain(type_name: &str, d: &Diff, done: &oracle::Done) -> Option<&'static str> {
+    // A conditional (version- or flag-gated) Option field that the value
+    // carries but whose condition does not hold is not written
+    // (`version.compatible(..).then(|| ..)` in every generated writer), so it
+    // reads back as None. Accepted only with the proof computed by the oracle:
+    // the same value without these fields validates and compiles to identical
+    // bytes. NullableOffsetMarker (`.obj`) is not a conditional field: a
+    // written Some must stay Some.
+    if d.kind == DiffKind::SomeToNull && !d.path.ends_with(".obj") && done.gated_fields_proven_unneeded == Some(true) {
         return Some("conditional-field-not-required-is-not-written");
+    }
+    // Property text: "arrays whose length is implied by the end of the data
+    // are compared on the written prefix". Applies when such a table is
+    // embedded in a parent (other subtables follow it in the data), never to
+    // the stand-alone table.
+    if d.kind == DiffKind::ArrayLonger {
+        let last = d.path.rsplit('.').next().unwrap_or("");
+        let embedded = d.path.matches('.').count() > 1;
+        let below = format!("{}[]", d.path);
+        let prefix_equal = !done.diffs.iter().any(|x| x.path.starts_with(&below));
+        if embedded && prefix_equal && END_OF_DATA_ARRAYS.contains(&last) && (last != "glyph_id_array" || d.path.contains(".Format4.") || d.path.contains(".Format10.")) {
+            return Some("end-of-data-array-compared-on-written-prefix");
+        }
     }
     special::explain(type_name, d)
 }
@@ -300,7 +329,13 @@ impl Run<'_> {
                 ctx.count("reread_errors", 1);
                 let mut d = detail(json!({"read_error": err, "bytes_len": bytes.len()}));
                 d["replay_json"] = j.clone();
-                ctx.violation(&format!("reread-error:{}:{}:{}", e.name, tag, err), d, Some(&bytes));
+                let mut inc = vec![];
+                rules::inconsistencies(j, &mut inc);
+                if inc.is_empty() {
+                    ctx.violation(&format!("reread-error:{}:{}:{}", e.name, tag, err), d, Some(&bytes));
+                } else {
+                    self.gap(ctx, &inc, d, &bytes);
+                }
             }
             Outcome::Done(done) => {
                 let tag = variant_tag(e, &done.written);
@@ -326,13 +361,17 @@ impl Run<'_> {
                     }
                 }
                 let mut unexplained: Option<&Diff> = None;
+                let mut carve_out = false;
                 if done.equal {
                     self.stats[ti].ok_equal += 1;
                 } else {
                     self.stats[ti].ok_normalised += 1;
                     for d in &done.diffs {
-                        match explain(e.name, d) {
+                        match explain(e.name, d, &done) {
                             Some(why) => {
+                                if why.starts_with("end-of-data") {
+                                    carve_out = true;
+                                }
                                 ctx.count(&format!("normalised:{}", why), 1);
                                 ctx.label("normalisations", &format!("{}:{}:{}:{}", e.name, d.path, d.kind.as_str(), why));
                             }
@@ -349,30 +388,39 @@ impl Run<'_> {
                     .iter()
                     .map(|d| json!({"path": d.path, "kind": d.kind.as_str(), "written": d.written, "read": d.read}))
                     .collect();
+                // what failed, if anything
+                let mut failure: Option<String> = None;
                 if let Some(d) = unexplained {
-                    let mut det = detail(json!({"diffs": diffs_json, "redump_same_bytes": format!("{:?}", done.redump), "reread_invalid": done.reread_invalid}));
+                    failure = Some(format!("roundtrip-mismatch:{}:{}:{}", e.name, tag, d.path.trim_start_matches('.')));
+                } else if carve_out {
+                    // the re-read value legitimately carries trailing data of
+                    // its siblings: byte idempotence is not defined for it
+                    ctx.count("redump_skipped_end_of_data_array", 1);
+                } else {
+                    match &done.redump {
+                        Ok(true) => ctx.count("redump_identical", 1),
+                        Ok(false) => {
+                            let p = done.diffs.first().map(|d| d.path.trim_start_matches('.').to_string()).unwrap_or_else(|| "-".into());
+                            failure = Some(format!("redump-mismatch:{}:{}:{}", e.name, tag, p));
+                        }
+                        Err(_) => failure = Some(format!("redump-error:{}:{}", e.name, tag)),
+                    }
+                    if failure.is_none() && done.second_gen_unstable {
+                        failure = Some(format!("second-generation-unstable:{}:{}", e.name, tag));
+                    }
+                }
+                if let Some(sig) = failure {
+                    let mut det = detail(json!({"diffs": diffs_json, "redump_same_bytes": format!("{:?}", done.redump), "reread_invalid": done.reread_invalid, "gated_fields_proven_unneeded": done.gated_fields_proven_unneeded}));
                     det["replay_json"] = j.clone();
-                    ctx.violation(&format!("roundtrip-mismatch:{}:{}:{}", e.name, tag, d.path.trim_start_matches('.')), det, Some(&done.bytes));
+                    let mut inc = vec![];
+                    rules::inconsistencies(&done.written, &mut inc);
+                    if inc.is_empty() {
+                        ctx.violation(&sig, det, Some(&done.bytes));
+                    } else {
+                        det["strict_signature"] = json!(sig);
+                        self.gap(ctx, &inc, det, &done.bytes);
+                    }
                     return;
-                }
-                match &done.redump {
-                    Ok(true) => ctx.count("redump_identical", 1),
-                    Ok(false) => {
-                        let mut det = detail(json!({"diffs": diffs_json}));
-                        det["replay_json"] = j.clone();
-                        let p = done.diffs.first().map(|d| d.path.trim_start_matches('.').to_string()).unwrap_or_else(|| "-".into());
-                        ctx.violation(&format!("redump-mismatch:{}:{}:{}", e.name, tag, p), det, Some(&done.bytes));
-                    }
-                    Err(err) => {
-                        let mut det = detail(json!({"diffs": diffs_json, "error": err}));
-                        det["replay_json"] = j.clone();
-                        ctx.violation(&format!("redump-error:{}:{}", e.name, tag), det, Some(&done.bytes));
-                    }
-                }
-                if done.second_gen_unstable {
-                    let mut det = detail(json!({"diffs": diffs_json}));
-                    det["replay_json"] = j.clone();
-                    ctx.violation(&format!("second-generation-unstable:{}:{}", e.name, tag), det, Some(&done.bytes));
                 }
                 if self.stats[ti].ok_equal + self.stats[ti].ok_normalised == 1 {
                     ctx.sample_by_kind(
@@ -382,6 +430,17 @@ impl Run<'_> {
                 }
             }
         }
+    }
+
+    /// A value that violates a declared count/selector precondition passed
+    /// validate() and then failed to round-trip: a validation gap.
+    fn gap(&mut self, ctx: &mut Ctx, rules_violated: &[&'static str], mut detail: Value, bytes: &[u8]) {
+        detail["rules_violated"] = json!(rules_violated);
+        for r in rules_violated {
+            ctx.count(&format!("validation_gap:{}", r), 1);
+        }
+        // attribute to the first violated rule (deterministic order of RULES)
+        ctx.violation(&format!("validation-gap:{}", rules_violated[0]), detail, Some(bytes));
     }
 
     /// Systematic sweeps over a small seed.
